@@ -23,9 +23,9 @@ ASSUMPTIONS = ["dense reference = checker's own matrix-product contraction of th
 
 BIN = ("add", "sub", "mul")
 SCAL_ADD = ("int", "float", "npfloat64", "npint", "npfloat32", "t0d", "t1", "complex", "t0d_i64", "t0d_other")
-SCAL_MUL = ("int", "float", "npfloat64", "t0d", "t1", "complex", "t0d_i64", "t0d_other")
+SCAL_MUL = ("int", "float", "npfloat64", "npint", "npfloat32", "t0d", "t1", "complex", "t0d_i64", "t0d_other")
 SCAL_LEFT = ("int", "float", "complex")
-SCAL_DIV = ("int", "float", "t0d", "t1", "t0d_i64", "t0d_other")
+SCAL_DIV = ("int", "float", "npfloat64", "npint", "npfloat32", "t0d", "t1", "t0d_i64", "t0d_other")
 
 
 @st.composite
